@@ -314,13 +314,27 @@ def search(r, m):
 def run(r):
     quick = r.tier == "quick"
     r.trusted += TRUSTED_COMMON + [
-        "exporter of uiua::Node trees to the model's node type (harness/src/bin/c01.rs Ex + uvh::Export); primitive arities taken from the tables at export time",
-        "the reference semantics of array primitives (coq/Model/Prims.v, written from the documentation, tied to the interpreter by C08's check) and the semantics given in Proofs/Opt.v to the fused implementation primitives",
-        "hooks verif::set_rewrites / verif::optimize_node (cfg verif_hooks) switch the rewrites off without changing anything else",
+        "exporter of uiua::Node trees to the model's node type (harness/src/bin/c01.rs Ex + uvh::Export); primitive arities taken from the tables at export time; "
+        "literals are exported as integer scalars or opaque ids (the model of Node::push treats non-scalar literals as wildcards)",
+        "the reference semantics of array primitives (coq/Model/Prims.v, written from the documentation, tied to the interpreter by C08's check); the semantics given in "
+        "Proofs/Opt.v to the fused primitives FirstMin/LastMin/FirstMax/LastMax index and CountUnique is tied to the real fused primitives by this check's fused tie, "
+        "the semantics of TransposeN (iterated transpose) by the search only",
+        "hooks verif::set_rewrites / verif::rewrites_on / verif::optimize_node (cfg verif_hooks): set_rewrites(false) makes optimize_impl return at once and Node::push not inline; "
+        "that this switches off nothing else is not checked",
+        "the source-text parser of UNSORTED_OPTS and of Node::push's arms in lib/c01.py (table tie)",
+        "attribution of a search finding to a rule comes from the generated snippet, not from a trace of the optimiser",
     ]
-    r.assumptions += ["rule soundness is proved for the rules of `proved` only; the rules of `listed_unproved` are decided by the differential search (the property is partial for them)",
-                      "optimize_sound: every rule applied on the run is a proved one, the run contains only primitives and literals of the straight-line evaluator, and the fix-point fuel suffices",
-                      "pre-evaluation is covered by the search only"]
+    r.assumptions += [
+        "rule soundness (original succeeds => rewritten succeeds with the same stack, no fill in scope, well-formed arrays) is proved for the 9 rules of `proved` only: "
+        "reverse;first, reverse;last, rise;first, fall;last, fall;first, rise;last, deduplicate;length, TransposeOpt, PopConst; "
+        "the 36 rules of `listed_unproved` are decided by the differential search (the property is partial for them)",
+        "C01_optimize_run_sound is about the fix-point loop on ONE run of primitives and integer literals; the recursion of optimize_impl into operands "
+        "(optimize_single since 402368c) is transcribed and validated by the optimiser tie but not proved sound",
+        "pre-evaluation (PreEvalMode::Normal) and Node::push on non-scalar literals are covered by the search only; PathOpt's fill shapes are not transcribed (kept out of the tie)",
+        "differences in the TEXT of an error caught by try (span, wording) and failures of the unrewritten program for resource reasons (too large / too high / memory / timeout) are not counted",
+        "the converse direction (the unrewritten program fails, the rewritten one succeeds) is reported with kind converse-divergence: it is outside the success-implies-success law "
+        "but contradicts 'rewrites may only change speed'",
+    ]
     if not r.harness(["c01"]):
         return
     r.proofs()
@@ -334,6 +348,12 @@ def run(r):
     e = search(r, m)
     r.coverage["evaluations"] = a[0] + b[0] + f + e
     r.coverage["distinct_nontrivial"] = a[1] + b[1]
-    r.coverage["rule"] = ("V: distinct raw trees (compiled with every rewrite off) of sources that embed each rule's left-hand side bare, inside operands, "
-                          "after literals and nested up to 3 deep, at Full and Early; non-trivial = the optimiser changed the tree / push shortened the run; "
-                          "search: program x argument pairs run in the three configurations")
+    r.coverage["rule"] = ("T: UNSORTED_OPTS (31 tuple rules: order, left and right sides; 14 hand-written rules: names, order, levels) and the arms of Node::push parsed "
+                          "from the source text and compared with Opt.v in Coq; "
+                          "V (optimiser): distinct raw trees (compiled with every rewrite off) of sources that embed each rule's left-hand side bare, inside operands, "
+                          "after literals and nested up to 3 deep, optimised at Full and Early by the real optimiser and by the model; non-trivial = the optimiser changed the tree; "
+                          "V (push): Node::from_iter of raw runs against the model; non-trivial = push shortened the run; "
+                          "C (fused): the five fused index/count primitives on marked (sorted up/down) and unmarked arrays with tied extremes, rank 1-2, and empty arrays, against prim_sem; "
+                          "search: every program run in the three configurations {no rewrites, optimiser, optimiser + pre-evaluation}, in this order: regression corpus (bare reproducers of every "
+                          "defect found, repaired and open), marked x tied-extremes family, rowless family (every rule on rowless arrays of every type, bare / under rows / behind a function), "
+                          "random rule-biased programs x generated arguments of every element type and rank 0-3, whole files and blank-line chunks of /repo/tests")
